@@ -539,7 +539,7 @@ Lemma guard_done {A} (u: err) (p: proc A) : forall s r s',
 Proof.
   induction p as [a0|e|n k IH|k IH|d k IH|k IH|k IH|k IH|k IH]; intros s r s' H Hne;
     cbn [guard resume] in *; auto.
-  - destruct (attempt s n) as [[c| |] sm]; auto.
+  - destruct (attempt s n) as [[c| |] sm]; try discriminate; auto.
   - inversion H; subst. congruence.
   - inversion H; subst. congruence.
 Qed.
@@ -601,8 +601,8 @@ Theorem underrun_only_when_missing_run {A} (u: err) (p: proc A) s q s' :
 Proof.
   intros H. destruct (guard_susp u p _ _ _ H) as [p' [Hq E]].
   destruct (underrun_only_when_missing _ (guard_clean u p) _ _ _ H) as [n [k [Hk Hlt]]].
-  subst q. destruct p'; cbn [guard] in Hk; try discriminate.
-  exists n0, k0. auto. inversion Hk; subst. auto.
+  subst q. destruct p' as [a0|e0|n' k'|k'|d' k'|k'|k'|k'|k']; cbn [guard] in Hk; try discriminate.
+  inversion Hk; subst. exists n, k'. auto.
 Qed.
 
 Theorem exact_consumption_run {A} (u: err) (p: proc A) e t a s' :
